@@ -8,6 +8,8 @@ package main
 import (
 	"context"
 	"fmt"
+	"os"
+	"os/exec"
 	"sort"
 	"strings"
 	"time"
@@ -413,8 +415,69 @@ func genScenario(startID int32, n, each int, ownProxies ...bool) *vm.Scenario {
 	return sc
 }
 
+// racePass runs the callers free on the uninstrumented client stack under the Go race detector
+// (checks/c08race) and reports data races whose accesses lie in the response path.
+func racePass(run *common.Run) (ran bool, reports, inPath int) {
+	args := []string{"test", "-race", "-count=1", "-vet=off"}
+	if ov := os.Getenv("VERIF_EXTRA_OVERLAY"); ov != "" {
+		args = append(args, "-overlay", ov) // seeded mutants without touching /repo
+	}
+	cmd := exec.Command("go", append(args, "./checks/c08race")...)
+	cmd.Dir = common.Root()
+	out, err := cmd.CombinedOutput()
+	text := string(out)
+	if err != nil && !strings.Contains(text, "DATA RACE") && !strings.Contains(text, "--- FAIL") {
+		run.InfraError("race pass could not run: %v\n%s", err, text)
+		return false, 0, 0
+	}
+	seen := map[string]bool{}
+	for _, blk := range strings.Split(text, "WARNING: DATA RACE")[1:] {
+		reports++
+		// the first frame after each "... at 0x... by goroutine" header is the racing access itself
+		lines := strings.Split(blk, "\n")
+		var access []string
+		for i, ln := range lines {
+			if strings.Contains(ln, " by goroutine ") || strings.Contains(ln, " by main goroutine") {
+				if i+1 < len(lines) {
+					access = append(access, strings.TrimSpace(lines[i+1]))
+				}
+			}
+		}
+		for _, a := range access {
+			if strings.Contains(a, "TarsGo/tars/protocol") {
+				inPath++
+				fn := a
+				if i := strings.Index(fn, "TarsGo/tars/"); i >= 0 {
+					fn = fn[i+len("TarsGo/tars/"):]
+				}
+				if j := strings.Index(fn, "("); j > 0 && strings.HasSuffix(fn, ")") {
+					fn = strings.TrimSuffix(fn, "()")
+				}
+				sig := "data-race-in-response-path:" + fn
+				if !seen[sig] {
+					seen[sig] = true
+					if len(blk) > 3000 {
+						blk = blk[:3000]
+					}
+					run.Violation(sig, "the race detector reports concurrent unsynchronised accesses in the code that decodes and delivers responses (free-running pass, 16 callers on 1-2 proxies):"+blk, map[string]any{"cmd": "go test -race ./checks/c08race"})
+				}
+				break
+			}
+		}
+	}
+	if strings.Contains(text, "misdelivered:") {
+		run.Violation("race-pass:caller-received-response-of-another-call", text[strings.Index(text, "misdelivered:"):], map[string]any{"cmd": "go test -race ./checks/c08race"})
+	}
+	return true, reports, inPath
+}
+
 func main() {
 	run := common.Start("C08", "model_checking")
+	if run.Replay == "" && os.Getenv("E1_WORKER") == "" {
+		if ok, n, k := racePass(run); ok {
+			run.Note("free-running -race pass (16 callers, 1 and 2 proxy objects, real sockets): %d race reports in all, %d with an access in the response path (the transport's known unsynchronised flags are not judged here)", n, k)
+		}
+	}
 	var cases []e1.Case
 	budget := 90 * time.Second
 	if run.Thorough() {
